@@ -197,7 +197,7 @@ PROPS = {
                 "(depth 1..10, soft nodes, hard nodes, pre-closed stop channel, stop channel closed from another goroutine after 0..2000 us) x table sizes 32 B..16 MiB (tiny tables without Output), several requests per engine so tables are warm, half of the engines first search ANOTHER position (state left by a different root: PV buffer, tables, histories), a third of the roots run on a table with PLANTED entries for the root and successor hashes (pseudo-legal-but-illegal moves, arbitrary encodings, mate scores - what a 16-bit signature collision leaves behind), ponder searches that are hit / missed, wall-clock soft limits (legality only), "
                 "plus the ABORT SWEEP: WithNodes(k) for EVERY k in [0,K] (K=400 quick, 5000 thorough) on roots of every class - each k is one possible arrival time of stop / hard timeout - continued sparsely up to 40*K nodes (abort points inside aspiration re-searches and null-move subtrees of later iterations); plus the UCI path: `position ...; go <args>` with depth up to 1e6 and unparsable/negative/huge numbers. "
                 "Oracle per search: returned move is null or in the reference legal moves; null only if the root is final; a completed search on a final root returns null with score 0 / mated; deep board snapshot equal before and after Go; node budget not exceeded (also while pondering); the same engine then answers a fresh position legally; "
-                "the board consistency hook runs at every make/undo inside the search. A deep/wide workload goes to the far ends of the search's own dimensions: iteration depths 40-63 on bare endgames (K+P v K, K+P v K+P, K+R v K) and roots with 5-9 queens and 102+ legal moves; `locked` roots (rammed pawns, boxed kings, 1-3 legal moves) and warm-ups on siblings of the root (same position minus one or two men) line up per-slot engine state with the root's own moves. thorough adds a verif,spsa build with random in-range parameter values, a -race build and an -asan build (the table is an unsafe.Slice over a byte buffer). distinct_nontrivial = distinct (root, table size) pairs.",
+                "the board consistency hook runs at every make/undo inside the search. A deep/wide workload goes to the far ends of the search's own dimensions: iteration depths 40-63 on bare endgames (K+P v K, K+P v K+P, K+R v K) and roots with 5-9 queens and 102+ legal moves; `locked` roots (rammed pawns, boxed kings, 1-3 legal moves) and warm-ups on siblings of the root (same position minus one or two men) line up per-slot engine state with the root's own moves. An abort-then-search workload (240 single-reply roots with captures behind the reply, half with an exact entry of another position under the root key; for every hard budget k = 1..40: Clear, `go nodes k`, then `go depth 1|2` on the same engine) looks at what an aborted search leaves behind. thorough adds a verif,spsa build with random in-range parameter values, a -race build and an -asan build (the table is an unsafe.Slice over a byte buffer). distinct_nontrivial = distinct (root, table size) pairs.",
         "assumptions": [REF, "time-based limits are replaced by node budgets (the search polls them at the same points); wall-clock only chooses the moment of an async stop, never a verdict"],
         "technique": "runtime monitor: reference legality oracle + deep board snapshot before/after + in-situ consistency hook over real searches with a dense abort-point sweep (node budget as logical stop time), race detector in thorough",
         "level_text": "Every explored search (~6e4 quick / ~5e6 thorough incl. every abort point k<=K on ~100/900 roots) returned a legal move or the null move on a final root, left the board identical, respected its node budget and left the engine usable; ~1e8 in-situ board consistency checks passed inside the searches. Held on the executions observed.",
